@@ -1,12 +1,14 @@
-(* Mem/Backing.v -- faithful model of lib/memory/backing.rs (after the two repairs recorded in
-   notes/C16.md: `?` instead of `unwrap` in `get`, early return of `set_memory` on empty data).
+(* Mem/Backing.v -- faithful model of lib/memory/backing.rs (after the three repairs recorded in
+   notes/C16.md: `?` instead of `unwrap` in `get`, early return of `set_memory` on empty data, section ends
+   computed without u64 overflow).
 
    sections : BTreeMap<u64, Section>  ==  association list with strictly increasing keys,
    manipulated only through bt_get / bt_insert / bt_remove / bt_le (the BTreeMap calls the Rust code makes).
    The permission payload P is never inspected by the code; the model is polymorphic in it
    (P := Z, the bitflags value, for the running model; P := Z * nat in the proofs about regions).
 
-   u64 additions are the overflow-checked ones of the harness build (`uadd`): overflow = Panic. *)
+   Exclusive section ends are computed without overflow (u128 / subtraction / checked_add in the repaired
+   code), so a section may end exactly at 2^64; `uadd` (overflow-checked u64 addition) remains for clients. *)
 From Coq Require Import ZArith List Bool.
 From Falcon Require Import Base.Res IL.Const.
 Import ListNotations.
@@ -62,15 +64,16 @@ Fixpoint bt_le (s : sections) (k : Z) : option (Z * section) :=
 
 (* ------------------------------------------------------------------ set_memory *)
 
-(* the body of `for al in als` *)
+(* the body of `for al in als`; `e2` = `end` = address + data.len() and `e` = `a_end` are u128 values in
+   the code (no overflow); `end as u64` is the truncating cast *)
 Definition step (ad n : Z) (s : sections) (al : Z * Z) : res sections :=
   let a := fst al in
   let l := snd al in
+  let e := a + l in
+  let e2 := ad + n in
   if a <? ad then
-    (* a < address && a + l > address *)
-    e <- uadd a l ;;
+    (* a < address && a_end > address *)
     if ad <? e then
-      e2 <- uadd ad n ;;
       if e <=? e2 then
         (* truncate(address - a) *)
         match bt_get s a with
@@ -78,14 +81,14 @@ Definition step (ad n : Z) (s : sections) (al : Z * Z) : res sections :=
         | Some (d, p) => Ok (bt_insert s a (firstn_z (ad - a) d, p))
         end
       else
-        let off := e2 - a in
+        let off := (e2 - a) mod U64 in
         match bt_get s a with
         | None => Panic
         | Some (d, p) =>
             if len d <? off then Panic            (* Vec::split_off: at > len *)
             else
               let s1 := bt_insert s a (firstn_z off d, p) in
-              let s2 := bt_insert s1 e2 (skipn_z off d, p) in
+              let s2 := bt_insert s1 (e2 mod U64) (skipn_z off d, p) in
               match bt_get s2 a with
               | None => Panic
               | Some (d2, p2) => Ok (bt_insert s2 a (firstn_z (ad - a) d2, p2))
@@ -93,21 +96,19 @@ Definition step (ad n : Z) (s : sections) (al : Z * Z) : res sections :=
         end
     else Ok s
   else
-    (* a >= address && a + l <= address + data.len() *)
-    e <- uadd a l ;;
-    e2 <- uadd ad n ;;
+    (* a >= address && a_end <= end *)
     if e <=? e2 then
       match bt_get s a with
       | None => Panic                               (* "About to remove ... but address does not exist" *)
       | Some _ => Ok (bt_remove s a)
       end
     else if a <? e2 then
-      let off := e2 - a in
+      let off := (e2 - a) mod U64 in
       match bt_get s a with
       | None => Panic
       | Some (d, p) =>
           if len d <? off then Panic                (* explicit panic!("offset ... is > data.len()") *)
-          else Ok (bt_insert (bt_remove s a) e2 (skipn_z off d, p))
+          else Ok (bt_insert (bt_remove s a) (e2 mod U64) (skipn_z off d, p))
       end
     else Ok s.
 
@@ -134,8 +135,8 @@ Definition section_address (s : sections) (x : Z) : res (option Z) :=
   match bt_le s x with
   | None => Ok None
   | Some (a, (d, _)) =>
-      (* *section_address <= address && *section_address + section.len() > address *)
-      if a <=? x then (e <- uadd a (len d) ;; if x <? e then Ok (Some a) else Ok None)
+      (* *section_address <= address && address - *section_address < section.len() *)
+      if a <=? x then (if x - a <? len d then Ok (Some a) else Ok None)
       else Ok None
   end.
 
@@ -210,14 +211,14 @@ Definition set32 (be : bool) (s : sections) (x v : Z) : res sections :=
 
 (* ------------------------------------------------------------------ get *)
 
-(* bytes at address+i, address+i+1, ... (k of them); `address + i as u64` is overflow-checked;
-   repaired code: an unmapped byte ends the read with None *)
+(* bytes at address+i, address+i+1, ... (k of them); repaired code: `address.checked_add(i)?` and an
+   unmapped byte end the read with None *)
 Fixpoint get_rest (s : sections) (x i : Z) (k : nat) : res (option (list Z)) :=
   match k with
   | O => Ok (Some [])
   | S k' =>
-      ad <- uadd x i ;;
-      ob <- get8 s ad ;;
+      if U64 <=? x + i then Ok None else
+      ob <- get8 s (x + i) ;;
       match ob with
       | None => Ok None
       | Some b =>
